@@ -197,38 +197,39 @@ def fieldStore (f : FieldSpec) (fid : Nat) (idx : List Nat) (attrs : Attrs) (v :
     | _, _ => .error .badType
   else .ok (attrs.set (fid, idx) v)
 
-/-- MSM bookkeeping after DF394 / DF395 / DF396 (counts, satellite and cell maps) and the
-    4076_201 coefficient counts after IDF038 -/
-def fieldSpecial (T : Tables) (id : Ident) (label : Nat) (f : FieldSpec) (fid : Nat) (idx : List Nat)
+/-- MSM bookkeeping after DF394 / DF395 / DF396: the counts NSat / NSig / NCell and, at DF396,
+    the satellite and cell maps -/
+def msmSpecial (T : Tables) (id : Ident) (label : Nat) (f : FieldSpec) (fid : Nat)
     (w bits : Nat) (s1 : DState) : Except DecErr DState :=
-  let isDerivedTy := f.ty = .prn ∨ f.ty = .cprn ∨ f.ty = .csig
-  let s2E : Except DecErr DState :=
-    if some fid = T.special.df394 then
-      if isDerivedTy then .error .badType else
-      .ok { s1 with attrs := s1.attrs.set (T.fidNSat, []) (.int (popcount bits w)) }
-    else if some fid = T.special.df395 then
-      if isDerivedTy then .error .badType else
-      .ok { s1 with attrs := s1.attrs.set (T.fidNSig, []) (.int (popcount bits w)) }
-    else if some fid = T.special.df396 then
-      if isDerivedTy then .error .badType else
-      let s1' := { s1 with attrs := s1.attrs.set (T.fidNCell, []) (.int (popcount bits w)) }
-      match T.special.df394, T.special.df395 with
-      | some f394, some f395 =>
-        match s1'.attrs.get? (f394, []), s1'.attrs.get? (f395, []), s1'.attrs.get? (fid, []) with
+  if some fid = T.special.df394 then
+    if (f.ty = .prn ∨ f.ty = .cprn ∨ f.ty = .csig) then .error .badType else
+    .ok { s1 with attrs := s1.attrs.set (T.fidNSat, []) (.int (popcount bits w)) }
+  else if some fid = T.special.df395 then
+    if (f.ty = .prn ∨ f.ty = .cprn ∨ f.ty = .csig) then .error .badType else
+    .ok { s1 with attrs := s1.attrs.set (T.fidNSig, []) (.int (popcount bits w)) }
+  else if some fid = T.special.df396 then
+    if (f.ty = .prn ∨ f.ty = .cprn ∨ f.ty = .csig) then .error .badType else
+    match T.special.df394, T.special.df395 with
+    | some f394, some f395 =>
+      match (s1.attrs.set (T.fidNCell, []) (.int (popcount bits w))).get? (f394, []),
+            (s1.attrs.set (T.fidNCell, []) (.int (popcount bits w))).get? (f395, []),
+            (s1.attrs.set (T.fidNCell, []) (.int (popcount bits w))).get? (fid, []) with
+      | some a, some b, some d =>
+        match a.asInt?, b.asInt?, d.asInt? with
         | some a, some b, some d =>
-          match a.asInt?, b.asInt?, d.asInt? with
-          | some a, some b, some d =>
-            if a < 0 ∨ b < 0 ∨ d < 0 then .error .badType else
-            match satCellMaps T id label a.toNat b.toNat d.toNat with
-            | .ok (sm, cm) => .ok { s1' with satmap := some sm, cellmap := some cm }
-            | .error e => .error e
-          | _, _, _ => .error .badType
-        | _, _, _ => .error .noAttr
-      | _, _ => .error .noAttr
-    else .ok s1
-  match s2E with
-  | .error e => .error e
-  | .ok s2 =>
+          if a < 0 ∨ b < 0 ∨ d < 0 then .error .badType else
+          match satCellMaps T id label a.toNat b.toNat d.toNat with
+          | .ok (sm, cm) =>
+            .ok { s1 with attrs := s1.attrs.set (T.fidNCell, []) (.int (popcount bits w)),
+                          satmap := some sm, cellmap := some cm }
+          | .error e => .error e
+        | _, _, _ => .error .badType
+      | _, _, _ => .error .noAttr
+    | _, _ => .error .noAttr
+  else .ok s1
+
+/-- the 4076_201 coefficient counts after IDF038 -/
+def harmSpecial (T : Tables) (fid : Nat) (idx : List Nat) (s2 : DState) : Except DecErr DState :=
   if some fid = T.special.idf038 then
     match idx, T.special.idf037 with
     | i :: _, some f037 =>
@@ -244,6 +245,12 @@ def fieldSpecial (T : Tables) (id : Ident) (label : Nat) (f : FieldSpec) (fid : 
     | [], _ => .error .badIndex
     | _, none => .error .noAttr
   else .ok s2
+
+def fieldSpecial (T : Tables) (id : Ident) (label : Nat) (f : FieldSpec) (fid : Nat) (idx : List Nat)
+    (w bits : Nat) (s1 : DState) : Except DecErr DState :=
+  match msmSpecial T id label f fid w bits s1 with
+  | .error e => .error e
+  | .ok s2 => harmSpecial T fid idx s2
 
 /-- `_set_attribute_single` -/
 def decField (c : Ctx) (fid : Nat) (idx : List Nat) (s : DState) : Except DecErr DState :=
